@@ -1477,6 +1477,294 @@ fn nonfinite_family(cfg: &Cfg, rep: &mut Report) {
 }
 
 // ---------------------------------------------------------------------------------------------
+// f64 candidates for integer-typed parameters through `update` (stream 7)
+//
+// `Distribution1D::update` takes `&[f64]` for every law, also where the parameter is an integer (Binomial n:
+// u64, ChiSquared dof: usize, DiscreteUniform bounds: i64; Poisson's lambda and T's dof are f64-typed in this
+// library). A fitted, averaged or interpolated value arrives there with a fractional part; a count computed
+// in floating point arrives above 2^53; a difference arrives negative. The statement does not say whether
+// such a vector is accepted (by truncating, rounding, ...) or rejected. It does say what holds AFTERWARDS:
+// the object "is observationally identical to one freshly constructed with the final parameters". An
+// integer-typed parameter can only hold an integer, so after an accepted call there must be ONE integer
+// reading of the offered value — floor, round, ceil, truncation, or the saturating `as` cast — such that
+// the twin built by the CONSTRUCTOR from that integer (and the other offered values) equals the object in
+// every observable at once: pmf/pdf, ln_pdf, mean, var AND the seeded sample(), sample_n, sample_matrix
+// streams. An object whose closed forms are those of one integer and whose stream is that of another value
+// is the twin of nothing. After a rejected call the object must be the twin of the last accepted parameters
+// (or of a prefix of the offered vector under one of those readings, see STRICT_ATOMIC_UPDATE).
+// Case: random valid start, then 4 updates in a row (the model follows the reading that matched). Step t of
+// case c offers class (c + t) mod 4 of
+//   fractional         k + {0.5, 1e-9, 1 - 1e-9, 0.25, 0.75, 0.4999999999, 0.5000000001, uniform(0.01, 0.99)}, k a valid integer target
+//   above-2^53         2^53 + 2, 2^53 + 4, 2^54 + 4, 2^60, log-uniform 2^53..2^60 (negated half of the time for i64 bounds)
+//   negative-fraction  -{0.5, 1e-9, 1 - 1e-9, uniform(0.01, 0.99), k + 0.5}
+//   in-(0,1)           {0.5, 1e-9, 1 - 1e-9, MIN_POSITIVE, uniform(0, 1)}
+// to one integer-typed position (cycling), the other position holding its current value, a new valid value,
+// or (DiscreteUniform) another candidate of the same class.
+
+const INT_CLASSES: [&str; 4] = ["fractional", "above-2^53", "negative-fraction", "in-(0,1)"];
+const INT_KINDS: [Kind; 3] = [K::Binomial, K::ChiSquared, K::DiscreteUniform];
+
+fn int_candidate(rng: &mut Rng, kind: Kind, i: usize, model: &[f64], class: &str) -> f64 {
+    let k = valid_target(rng, kind, i, model).0.clamp(-1e6, 1e6).round();
+    let frac = |rng: &mut Rng| match rng.usize(0, 7) {
+        0 => 0.5,
+        1 => 1e-9,
+        2 => 1.0 - 1e-9,
+        3 => 0.25,
+        4 => 0.75,
+        5 => 0.4999999999,
+        6 => 0.5000000001,
+        _ => rng.range(0.01, 0.99),
+    };
+    match class {
+        "fractional" => k + frac(rng),
+        "above-2^53" => {
+            let two53 = 9007199254740992.0;
+            let m = match rng.usize(0, 5) {
+                0 => two53 + 2.0,
+                1 => two53 + 4.0,
+                2 => 2.0 * two53 + 4.0,
+                3 => 1152921504606846976.0, // 2^60
+                _ => rng.log_range(two53, 1152921504606846976.0).floor(),
+            };
+            if dom(kind, i) == Dom::Int && rng.bool() {
+                -m
+            } else {
+                m
+            }
+        }
+        "negative-fraction" => -match rng.usize(0, 4) {
+            0 => 0.5,
+            1 => 1e-9,
+            2 => 1.0 - 1e-9,
+            3 => rng.range(0.01, 0.99),
+            _ => k.abs() + 0.5,
+        },
+        _ => match rng.usize(0, 4) {
+            0 => 0.5,
+            1 => 1e-9,
+            2 => 1.0 - 1e-9,
+            3 => f64::MIN_POSITIVE,
+            _ => rng.range(0.0, 1.0).max(5e-324),
+        },
+    }
+}
+
+/// The integers an integer-typed parameter may hold after it was offered `v`: (reading, integer as f64).
+fn int_readings(kind: Kind, i: usize, v: f64) -> Vec<(&'static str, f64)> {
+    let sat = match dom(kind, i) {
+        Dom::Int => (v as i64) as f64,
+        _ => (v as u64) as f64,
+    };
+    let mut out: Vec<(&'static str, f64)> = Vec::new();
+    for (tag, c) in [("truncation", v.trunc()), ("floor", v.floor()), ("round", v.round()), ("ceil", v.ceil()), ("saturating-cast", sat)] {
+        let c = c + 0.0; // -0.0 is the integer 0
+        let in_type = match dom(kind, i) {
+            Dom::Int => c.abs() <= 9.2e18,
+            _ => c >= 0.0 && c <= 1.8e19,
+        };
+        if c.is_finite() && in_type && !out.iter().any(|(_, d)| d.to_bits() == c.to_bits()) {
+            out.push((tag, c));
+        }
+    }
+    out
+}
+
+/// All parameter vectors the object may stand for once the first `upto` positions of the offered vector
+/// `p` have been applied to `model`, every integer-typed position under each of its readings.
+fn reading_vectors(kind: Kind, model: &[f64], p: &[f64], upto: usize) -> Vec<(String, Vec<f64>)> {
+    let mut acc: Vec<(String, Vec<f64>)> = vec![(String::new(), model.to_vec())];
+    for j in 0..upto {
+        let opts: Vec<(&'static str, f64)> = if kind.integer(j) && p[j].fract() != 0.0 { int_readings(kind, j, p[j]) } else if kind.integer(j) { vec![("integer-valued", p[j] + 0.0)] } else { vec![("as-offered", p[j])] };
+        let mut next = Vec::new();
+        for (tags, v) in &acc {
+            for (tag, c) in &opts {
+                let mut w = v.clone();
+                w[j] = *c;
+                next.push((if tags.is_empty() { tag.to_string() } else { format!("{},{}", tags, tag) }, w));
+            }
+        }
+        acc = next;
+    }
+    acc
+}
+
+/// Seeded streams of object and twin through sample(), sample_n and sample_matrix, compared silently.
+fn streams_equal(rep: &mut Report, obj: &Obj, twin: &Obj, seed: u64, n_draws: usize) -> bool {
+    if !stream_eq(&draws(rep, obj, seed, n_draws), &draws(rep, twin, seed, n_draws)) {
+        return false;
+    }
+    let nb = (n_draws / 5).max(4);
+    for shape in [Ok(nb), Err((2, nb / 2))] {
+        if !stream_eq(&bulk_draws(rep, obj, seed, shape), &bulk_draws(rep, twin, seed, shape)) {
+            return false;
+        }
+    }
+    true
+}
+
+struct Match {
+    tags: String,
+    params: Vec<f64>,
+    twin: Obj,
+    /// the streams agree too (otherwise only pmf/pdf, ln_pdf, mean, var do)
+    full: bool,
+}
+
+/// The first candidate whose constructor twin equals the object in every observable; failing that, the first
+/// whose twin equals it in the closed forms.
+fn find_twin(rep: &mut Report, kind: Kind, cands: &[(String, Vec<f64>)], obj: &Obj, seed: u64, n_draws: usize) -> Option<Match> {
+    let mut closed_only: Option<Match> = None;
+    for (tags, c) in cands {
+        let twin = match guard(|| construct(kind, c)) {
+            Ok(t) => t,
+            Err(_) => continue,
+        };
+        if !obs_eq(&observe(kind, c, obj), &observe(kind, c, &twin)) {
+            continue;
+        }
+        if streams_equal(rep, obj, &twin, seed, n_draws) {
+            return Some(Match { tags: tags.clone(), params: c.clone(), twin, full: true });
+        }
+        if closed_only.is_none() {
+            closed_only = Some(Match { tags: tags.clone(), params: c.clone(), twin, full: false });
+        }
+    }
+    closed_only
+}
+
+fn intparam_case(cfg: &Cfg, rep: &mut Report, rng: &mut Rng, kind: Kind, idx: usize) {
+    let name = kind.name();
+    let np = kind.nparams();
+    let int_pos: Vec<usize> = (0..np).filter(|&i| kind.integer(i)).collect();
+    let mut model = initial(rng, kind);
+    let mut hist = vec![format!("new({:?})", model)];
+    let mut obj = match guard(|| construct(kind, &model)) {
+        Ok(o) => o,
+        Err(msg) => {
+            rep.check("C18.ctor.accepts_valid", &format!("{}:ctor", name), false, || json!({"distribution": name, "parameters": jf(&model), "panic": msg}));
+            return;
+        }
+    };
+    let steps = if cfg.miri() { 1 } else { 4 };
+    let mut hash = Hasher::new().s("intparam").s(name).fs(&model);
+    for t in 0..steps {
+        let class = INT_CLASSES[(idx + t) % 4];
+        let i = int_pos[(idx / 4 + t) % int_pos.len()];
+        let param = &kind.setters()[i][4..];
+        let v = int_candidate(rng, kind, i, &model, class);
+        let mut p = model.clone();
+        p[i] = v;
+        if np == 2 {
+            match rng.usize(0, 2) {
+                0 => {}
+                1 => p[1 - i] = valid_target(rng, kind, 1 - i, &model).0,
+                _ => {
+                    if kind.integer(1 - i) {
+                        p[1 - i] = int_candidate(rng, kind, 1 - i, &model, class);
+                    } else {
+                        p[1 - i] = valid_target(rng, kind, 1 - i, &model).0;
+                    }
+                }
+            }
+        }
+        let regime = format!("{}:update:intparam:{}", name, class);
+        rep.case(&regime);
+        rep.seen(&format!("cover:intparam:{}:{}:{}", name, param, class), 1);
+        rep.seen(&format!("cover:intparam:update-position-{}", i), 1);
+        hist.push(format!("update({:?}) [f64 offered to an integer-typed parameter]", p));
+        hash = hash.fs(&p);
+        let seed = rng.u64() | 1;
+        let n_draws = if cfg.miri() { 8 } else if p.iter().chain(model.iter()).any(|x| x.abs() > 1e6) { 16 } else { 32 };
+        let mut o2 = obj;
+        let outcome = guard(|| o2.update(&p));
+        let accepted = outcome.is_ok();
+        rep.note_add(&format!("intparam.{}.{}.{}.{}", name, param, class, if accepted { "ACCEPTED" } else { "rejected" }), 1.0);
+        if accepted {
+            let cands = reading_vectors(kind, &model, &p, np);
+            let found = find_twin(rep, kind, &cands, &o2, seed, n_draws);
+            rep.check("C18.intparam.holds_an_integer", &regime, found.is_some(), || {
+                json!({"distribution": name, "history": hist, "offered": jf(&p), "parameter": param,
+                       "integer_readings_tried": cands.iter().map(|(t, c)| json!({"reading": t, "parameters": jf(c)})).collect::<Vec<_>>(),
+                       "observed": "update accepted the vector, but in pmf/pdf, mean and var the object is not the constructor twin of any integer reading of the offered value",
+                       "mean_after": jval(&guard(|| o2.mean())), "var_after": jval(&guard(|| o2.var()))})
+            });
+            match found {
+                Some(m) => {
+                    rep.note_add(&format!("intparam.accepted_as.{}", m.tags), 1.0);
+                    if !m.full {
+                        rep.seen("intparam:closed-forms-and-streams-disagree", 1);
+                    }
+                    // the complete twin comparison, reported under this regime (a twin that matched only in the
+                    // closed forms fails here on its streams)
+                    hist.push(format!("[the object reports the parameters {:?}: {}]", m.params, m.tags));
+                    let cx = Ctx { kind, history: &hist, n_draws };
+                    compare(rep, &cx, &regime, &m.params, &o2, &m.twin, seed);
+                    hist.pop();
+                    model = m.params;
+                    obj = m.twin; // continue from the object the constructor builds
+                }
+                None => {
+                    obj = construct(kind, &model);
+                }
+            }
+        } else {
+            // the caller catches the panic and still holds `o2`
+            let mut cands: Vec<(String, Vec<f64>)> = vec![("unchanged".to_string(), model.clone())];
+            for j in 1..np {
+                for (tags, c) in reading_vectors(kind, &model, &p, j) {
+                    if !c.iter().zip(&model).all(|(a, b)| a.to_bits() == b.to_bits()) {
+                        cands.push((format!("prefix-applied:{}", tags), c));
+                    }
+                }
+            }
+            let found = find_twin(rep, kind, &cands, &o2, seed, n_draws);
+            let ok = matches!(&found, Some(m) if m.tags == "unchanged" || !STRICT_ATOMIC_UPDATE);
+            rep.check("C18.rejected.unchanged", &regime, ok, || {
+                json!({"distribution": name, "history": hist, "parameters_last_accepted": jf(&model), "offered": jf(&p),
+                       "observed": "after update panicked the object is neither the twin of the last accepted parameters nor that of an applied prefix of the offered vector",
+                       "mean_after": jval(&guard(|| o2.mean())), "var_after": jval(&guard(|| o2.var()))})
+            });
+            if let Some(m) = found {
+                if m.tags != "unchanged" {
+                    rep.note_add("rejected_update.valid_prefix_applied", 1.0);
+                }
+                let cx = Ctx { kind, history: &hist, n_draws };
+                compare(rep, &cx, &regime, &m.params, &o2, &m.twin, seed);
+            }
+            obj = construct(kind, &model);
+        }
+    }
+    rep.distinct(hash.finish(), true);
+}
+
+fn intparam_family(cfg: &Cfg, rep: &mut Report) {
+    let n = cfg.pick(3 * 48, 3 * 480, 3);
+    par_cases(cfg, rep, 7, n, |i, rng, rep| {
+        intparam_case(cfg, rep, rng, INT_KINDS[i % 3], i / 3);
+    });
+    for k in INT_KINDS {
+        rep.require(&format!("{}:update:intparam:fractional", k.name()), 1);
+    }
+    if !cfg.lite {
+        for k in INT_KINDS {
+            for i in 0..k.nparams() {
+                if k.integer(i) {
+                    for c in INT_CLASSES {
+                        rep.require(&format!("cover:intparam:{}:{}:{}", k.name(), &k.setters()[i][4..], c), 1);
+                    }
+                }
+            }
+            for c in INT_CLASSES {
+                rep.require(&format!("{}:update:intparam:{}", k.name(), c), 1);
+            }
+        }
+        rep.require("cover:intparam:update-position-0", 1);
+        rep.require("cover:intparam:update-position-1", 1);
+    }
+}
+
+// ---------------------------------------------------------------------------------------------
 // isolation: other live objects, other threads
 
 fn isolation_objects(cfg: &Cfg, rep: &mut Report, rng: &mut Rng, kind: Kind) {
@@ -1702,9 +1990,9 @@ fn bulk_family(cfg: &Cfg, rep: &mut Report) {
 }
 
 pub fn run(cfg: &Cfg, rep: &mut Report) {
-    rep.rule = "random histories: constructor + 1..20 mutations (65% single setter, 35% update; 30% of the steps carry an invalid value; valid targets on a random side of the current value; two-sided bounds: targets above / below / containing / overlapping the old interval), 13 distributions round-robin. Structured valid targets: 35% of the valid setter steps take the current value of the same parameter (same), the current value of the other parameter (cross) or an edge of the documented domain (tiny: 5e-324, MIN_POSITIVE, EPSILON/2, log-uniform 1e-300..1e-15 and 1e-15..moderate range; huge: log-uniform moderate range..1e15 and 1e15..1e300, f64::MAX; probabilities up to 1-2^-53; integer parameters up to 1e18, DiscreteUniform bounds up to +-1e15); 50% of the valid updates are structured vectors labelled by class: same / equal (both targets bit-equal: a new value or a current one) / swap / cross (a target equals the current value of the other parameter) / one-changes / extreme; 20% of the histories start from equal parameters or from an edge of the domain. After every accepted step the object is compared with a fresh twin through every method of the distribution traits (pdf/pmf at 16 probe points; ln_pdf of the 9 continuous laws and Normal::cdf at those and 10 far-tail points; mean; var; 64 seeded sample() draws, 16 while a parameter is outside the moderate range; sample_n(12) and sample_matrix(2x6 / 6x2) from the same seed); non-finite family (6 (40) cases per distribution): from random valid parameters, NaN x3 / +inf / -inf offered to each parameter via constructor, setter, and update (next to the current values, to new valid values, to another non-finite value), the object observed after every call that panicked; then isolation cases (k = 0, 1, 50 other live objects; 8 concurrent threads). non-trivial = at least one accepted mutation changed a parameter; distinct by (distribution, sequence of calls and values). Default-start histories (20 per distribution quick, 200 thorough): Default::default() compared with new(default parameters), once more after a rejected setter/update, then mutated as above. Bulk family: per distribution, stream lengths 1, 2, 3, 100, 1000, 7e4, 1e5, 2^k-1 / 2^k / 2^k+1 for k in {4,8,10,12,14..17 (thorough ..20)} and 8 random lengths; random moderate parameters and seed per point; singles / sample_n twice / sample_matrix(r,c) twice with r*c = n, each followed by 4 single draws".into();
+    rep.rule = "random histories: constructor + 1..20 mutations (65% single setter, 35% update; 30% of the steps carry an invalid value; valid targets on a random side of the current value; two-sided bounds: targets above / below / containing / overlapping the old interval), 13 distributions round-robin. Structured valid targets: 35% of the valid setter steps take the current value of the same parameter (same), the current value of the other parameter (cross) or an edge of the documented domain (tiny: 5e-324, MIN_POSITIVE, EPSILON/2, log-uniform 1e-300..1e-15 and 1e-15..moderate range; huge: log-uniform moderate range..1e15 and 1e15..1e300, f64::MAX; probabilities up to 1-2^-53; integer parameters up to 1e18, DiscreteUniform bounds up to +-1e15); 50% of the valid updates are structured vectors labelled by class: same / equal (both targets bit-equal: a new value or a current one) / swap / cross (a target equals the current value of the other parameter) / one-changes / extreme; 20% of the histories start from equal parameters or from an edge of the domain. After every accepted step the object is compared with a fresh twin through every method of the distribution traits (pdf/pmf at 16 probe points; ln_pdf of the 9 continuous laws and Normal::cdf at those and 10 far-tail points; mean; var; 64 seeded sample() draws, 16 while a parameter is outside the moderate range; sample_n(12) and sample_matrix(2x6 / 6x2) from the same seed); non-finite family (6 (40) cases per distribution): from random valid parameters, NaN x3 / +inf / -inf offered to each parameter via constructor, setter, and update (next to the current values, to new valid values, to another non-finite value), the object observed after every call that panicked; intparam family (48 (480) cases for each of Binomial, ChiSquared, DiscreteUniform): from random valid parameters 4 updates in a row, each offering to one integer-typed position a fractional value (k + 0.5, k + 1e-9, k + 1 - 1e-9, ...), a value above 2^53, a negative fraction or a value in (0,1), next to the current / a new valid / another such value in the other position; the object is matched against the constructor twins of every integer reading (truncation, floor, round, ceil, saturating cast) in all observables; then isolation cases (k = 0, 1, 50 other live objects; 8 concurrent threads). non-trivial = at least one accepted mutation changed a parameter; distinct by (distribution, sequence of calls and values). Default-start histories (20 per distribution quick, 200 thorough): Default::default() compared with new(default parameters), once more after a rejected setter/update, then mutated as above. Bulk family: per distribution, stream lengths 1, 2, 3, 100, 1000, 7e4, 1e5, 2^k-1 / 2^k / 2^k+1 for k in {4,8,10,12,14..17 (thorough ..20)} and 8 random lengths; random moderate parameters and seed per point; singles / sample_n twice / sample_matrix(r,c) twice with r*c = n, each followed by 4 single draws".into();
     rep.assume("random histories do not use NaN as an invalid probe. The non-finite family offers NaN (both signs, quiet and signalling patterns, random payloads), +inf and -inf to every parameter through the constructor, the setter and every position of the update vector (integer-typed parameters: through update only, which casts). Acceptance is recorded (notes nonfinite.ACCEPTED.<distribution>.<parameter>=<value>.via-<route>), not judged: the statement does not say whether +inf is a valid scale. Judged: a value the constructor rejects is rejected by setter and update too (routes_agree), and after a call that panicked the object is observationally the twin of the last accepted parameters (or of a constructor-accepted prefix of the offered vector), every method and the seeded streams included. Objects that accepted a non-finite value are not observed (NaN-shape sampler loops, erf(NaN) recursion on the unchanged tree)");
-    rep.assume("integer-typed parameters (Binomial n, ChiSquared dof, DiscreteUniform bounds) are mutated with integer values only; update() receives them as integer-valued f64 (its f64→integer cast cannot express other invalid values than the typed setter)");
+    rep.assume("integer-typed parameters (Binomial n, ChiSquared dof, DiscreteUniform bounds) are mutated with integer values in the random histories; update() receives them there as integer-valued f64. The intparam family offers them fractional values, values above 2^53, negative fractions and values in (0,1) through update: acceptance or rejection is recorded (notes intparam.<distribution>.<parameter>.<class>.ACCEPTED/rejected, intparam.accepted_as.<reading>), not judged; judged is that an object which accepted is, in every observable at once (closed forms and seeded streams), the constructor twin of ONE integer reading of the offered value (truncation, floor, round, ceil or the saturating cast), and that an object which rejected is unchanged (or the twin of an applied prefix)");
     rep.assume("ordinary targets keep shape parameters >= 0.4 (T: dof >= 0.7); structured targets visit the whole documented domain. No verdict depends on what a sampler returns there (C03): object and twin run the same code from the same seed under an iteration budget of 1e5 per stream, and a stream cut by the budget on BOTH sides is equal behaviour");
     rep.assume("validity table = the constructors' documented domains restricted to finite values (x > 0, sigma >= 0, 0 <= p <= 1, dof >= 1, lower <= upper); +-inf and NaN are not presented as valid parameters; integer parameters stay <= 1e18 (DiscreteUniform bounds within +-1e15) where update()'s f64 -> integer cast is exact and upper - lower + 1 cannot overflow");
     rep.assume("'the same stream of samples from the same RNG seed' is read per seed, not per call shape: sample_n(n) and sample_matrix(r, c) must return the n = r*c values that n successive sample() calls return from that seed, and draws after the bulk call continue that stream; 'reproducible' (two identical seeded bulk calls agree) is asserted separately under its own id");
@@ -1724,6 +2012,7 @@ pub fn run(cfg: &Cfg, rep: &mut Report) {
     });
     bulk_family(cfg, rep);
     nonfinite_family(cfg, rep);
+    intparam_family(cfg, rep);
     let n_iso = cfg.pick(13 * 4, 13 * 40, 3);
     par_cases(cfg, rep, 2, n_iso, |i, rng, rep| {
         isolation_objects(cfg, rep, rng, KINDS[(i * 5) % 13]);
